@@ -563,6 +563,16 @@ type Specs struct {
 	Schemas   []*Contract
 	RawSMT    []string
 	Macros    map[string][]string
+	ElemInvs  []ElemInv
+}
+
+// ElemInv is a global invariant on the elements of every slice / array / map value whose element
+// type is Type: checked at every store in the functions under contract, assumed at every load.
+type ElemInv struct {
+	Type string
+	Tags []string
+	E    Expr
+	Src  string
 }
 
 func newSpecs() *Specs {
@@ -710,6 +720,19 @@ func (sp *Specs) loadSpecFile(path, commentPrefix string, external bool) error {
 				sp.FunOrder = append(sp.FunOrder, fd.Name)
 			}
 			sp.Funs[fd.Name] = fd
+			cur = nil
+			continue
+		case "elementinv":
+			tags, r2 := splitTags(rest)
+			i := strings.Index(r2, ": ")
+			if i < 0 {
+				return fail(fmt.Errorf("elementinv <type>: <expr over x>"))
+			}
+			e, err := parseExpr(strings.TrimSpace(r2[i+2:]))
+			if err != nil {
+				return fail(err)
+			}
+			sp.ElemInvs = append(sp.ElemInvs, ElemInv{Type: strings.TrimSpace(r2[:i]), Tags: tags, E: e, Src: strings.TrimSpace(r2[i+2:])})
 			cur = nil
 			continue
 		case "macro":
